@@ -9,9 +9,10 @@ import (
 )
 
 type deferred struct {
-	call *ssa.Defer
-	args []Value // evaluated at the defer statement
-	fnv  Value
+	call  *ssa.Defer
+	args  []Value // evaluated at the defer statement
+	fnv   Value
+	guard Term // the defer statement was executed on this path (true when unconditional)
 }
 
 // State is the symbolic machine state at a program point.
@@ -235,17 +236,37 @@ func (x *Exec) merge(edges []edge) *State {
 		}
 	}
 	n.Frontier = x.mergeTerm("frontier", edges, func(s *State) Term { return s.Frontier })
-	// defers: must agree
-	n.Defers = append([]deferred(nil), edges[0].st.Defers...)
-	for _, e := range edges[1:] {
-		if len(e.st.Defers) != len(n.Defers) {
-			unsup("paths with different defer stacks merge")
-		}
-		for i := range n.Defers {
-			if e.st.Defers[i].call != n.Defers[i].call {
-				unsup("paths with different defer stacks merge")
+	// defers: a defer statement executed on only some of the merging paths
+	// becomes conditional (its guard says on which paths it was registered)
+	var order []*ssa.Defer
+	seen := map[*ssa.Defer]bool{}
+	for _, e := range edges {
+		for _, d := range e.st.Defers {
+			if !seen[d.call] {
+				seen[d.call] = true
+				order = append(order, d.call)
 			}
 		}
+	}
+	for _, dc := range order {
+		var proto *deferred
+		guards := make([]Term, len(edges))
+		for i, e := range edges {
+			guards[i] = False
+			for k := range e.st.Defers {
+				if e.st.Defers[k].call == dc {
+					guards[i] = e.st.Defers[k].guard
+					if proto == nil {
+						proto = &e.st.Defers[k]
+					}
+				}
+			}
+		}
+		nd := *proto
+		nd.guard = x.join("deferguard", conds, guards)
+		// argument values must agree where registered; take the prototype's (arguments of
+		// conditional defers in this code base are loop-free field addresses evaluated before the branch)
+		n.Defers = append(n.Defers, nd)
 	}
 	return n
 }
